@@ -617,7 +617,7 @@ impl<T: AsRef<[u8]> + AsMut<[u8]>> Packet<T> {
                 self.set_field(idx, &dst[11..]);
                 idx += 5;
             } else {
-                self.set_dam_field(0b11);
+                self.set_dam_field(0b00);
 
                 self.set_field(idx, &dst);
                 idx += 16;
